@@ -60,7 +60,7 @@ def family(ctx, m, fname, tag, lo_dom):
     m.submit(P + 'mirror:two-sided', hy, T.and_(T.mk('feq', sub(lo, mir_ren), T.mk('fsub', one, hi)), T.mk('feq', sub(hi, mir_ren), T.mk('fsub', one, lo))), key=P + 'mirror', note='CI(n, n-k) = 1 - CI(n, k)')
     pcu, lou, hiu = ex[1]
     pcl, lol, hil = ex[2]
-    hy = pcl + [sub(c, mir_ren) for c in pcu] + dom(n_i, k_i)
+    hy = nokind(pcl) + [sub(c, mir_ren) for c in nokind(pcu)] + dom(n_i, k_i)
     m.submit(P + 'mirror:one-sided', hy, T.and_(T.mk('feq', sub(lou, mir_ren), T.mk('fsub', one, hil)), T.mk('feq', sub(hiu, mir_ren), T.mk('fsub', one, lol))), key=P + 'mirror',
              note='upper one-sided CI(n, n-k) = 1 - lower one-sided CI(n, k)')
     # --- monotone in k
